@@ -203,7 +203,10 @@ Definition cdig_of (r : region) : cdig :=
 Definition sdig_of (r : region) : sdig := SDig (r_id r) (r_start r) (r_end r) (r_ver r) (r_confver r).
 
 Definition snapshot (h : hstate) (ids : list Z) : hobs :=
-  HoSnap (map cdig_of (flat_map (fun o => match o with Some x => [x] | None => [] end) (scan (h_cache h) [] [] 0)))
+  HoSnap (map (fun o => match o with
+                        | Some x => cdig_of x
+                        | None => CDig 0 [] [] 0 0 0 0 (-1)      (* a nil element in ScanRegions' result *)
+                        end) (scan (h_cache h) [] [] 0))
          (flat_map (fun id => match load_region (h_store h) id with Some x => [sdig_of x] | None => [] end) ids).
 
 Definition h_step (h : hstate) (o : hop) : hstate * hobs :=
